@@ -823,14 +823,19 @@ class KVGarbageCollector(BaseGarbageCollector):
                 event_id = key[-32:].hex()
                 to_del.append(event_id)
         # remove all expired events
-        start = INDEXES["tags"].to_key(("expiration", "0"))
-        end = INDEXES["tags"].to_key(("expiration", str(int(time()))))
+        # (the index is ordered as text, so every expiration entry is checked
+        # and only well-formed values are compared, as numbers)
+        start = INDEXES["tags"].to_key(("expiration", ""))
+        now = int(time())
         if cursor.set_range(start):
             for key in cursor.iternext(values=False):
-                if key > end:
+                key = bytes(key)
+                if not key.startswith(start):
                     break
-                event_id = key[-32:].hex()
-                to_del.append(event_id)
+                value = key[len(start) : -38]
+                if value.isdigit() and int(value) < now:
+                    event_id = key[-32:].hex()
+                    to_del.append(event_id)
 
         cursor.close()
         if to_del:
